@@ -679,6 +679,18 @@ func (check *Checker) shift(x, y *operand, e *ast.BinaryExpr, op token.Token) {
 		// (Either it was of an integer type already, or it was
 		// untyped and successfully converted to a uint above.)
 		yval = constant.ToInt(y.val)
+		if yval.Kind() == constant.Unknown {
+			// the count is a constant whose value is not known (an erroneous
+			// or cyclic declaration, reported where it is declared):
+			// the result of the shift is not known either
+			if x.mode == constant_ {
+				x.val = constant.MakeUnknown()
+				if !isInteger(x.typ) {
+					x.typ = Typ[UntypedInt]
+				}
+			}
+			return
+		}
 		assert(yval.Kind() == constant.Int)
 		if constant.Sign(yval) < 0 {
 			check.invalidOp(y.pos(), "negative shift count %s", y)
